@@ -27,7 +27,7 @@ LINKS = ['single_linkage', 'complete_linkage', 'centroid_linkage', 'average_link
 @st.composite
 def cases(draw, tier):
     n = draw(st.one_of(st.integers(2, 12), st.integers(2, 40 if tier == 'quick' else 300)))
-    kind = draw(st.sampled_from(['int', 'int', 'dyadic', 'float', 'clustered']))
+    kind = draw(st.sampled_from(['int', 'int', 'dyadic', 'float', 'clustered', 'epoch']))
     if kind == 'int':
         steps = draw(st.lists(st.integers(1, 5), min_size=n - 1, max_size=n - 1))
         x0 = draw(st.integers(0, 100))
@@ -39,6 +39,10 @@ def cases(draw, tier):
         x = [draw(st.integers(0, 64)) / 8.0]
         for s in steps:
             x.append(x[-1] + s / 8.0)
+    elif kind == 'epoch':       # time stamps: huge offset, small exactly representable steps
+        x = [draw(st.sampled_from([1.7e9, 1.7e12, 1e10]))]
+        for s in draw(st.lists(st.integers(1, 9), min_size=n - 1, max_size=n - 1)):
+            x.append(x[-1] + s)
     elif kind == 'clustered':   # tight groups separated by big gaps -> long clusters, drift matters
         x = [float(draw(st.integers(0, 10)))]
         for _ in range(n - 1):
@@ -162,6 +166,7 @@ def oracle(case, rec):
     t = float(case['t'])
     rec.tag('x:' + case['kind'], 't:' + case['tmode'])
     outs = {}
+    kept = {}
     for name in LINKS:
         out = rec.call(8, getattr(L.clustering, name), pts, t, _site='clustering.' + name)
         if out is FAILED:
@@ -174,6 +179,7 @@ def oracle(case, rec):
         ok = rec.check(lab[0] == 0 and all(b - a_ in (0, 1) for a_, b in zip(lab, lab[1:])), name + ':labels-not-contiguous-runs', lab)
         if ok:
             outs[name] = lab
+            kept[name] = a          # the returned object itself, re-read after later calls
     if 'single_linkage' in outs:
         rec.check(outs['single_linkage'] == ref_single(x, t), 'single_linkage:rule', 'got %r want %r x=%r t=%r' % (outs['single_linkage'], ref_single(x, t), x, t))
     if 'complete_linkage' in outs:
@@ -192,6 +198,10 @@ def oracle(case, rec):
         b = rec.call(8, getattr(L.clustering, name), pts, hi, _site='clustering.' + name)
         if a is not FAILED and b is not FAILED:
             rec.check(int(np.max(b)) <= int(np.max(a)), name + ':cluster-count-increases-with-t', (lo, hi, int(np.max(a)) + 1, int(np.max(b)) + 1))
+    for name, arr in kept.items():
+        # a result must not be overwritten by later calls of the same function (t2 above, other linkages)
+        other = rec.call(8, getattr(L.clustering, name), pts[::-1][:max(2, n // 2)][::-1].copy(), float(case['t2']), _site='clustering.' + name)
+        rec.check(np.asarray(arr).tolist() == outs[name], name + ':result-overwritten-by-a-later-call', (np.asarray(arr).tolist(), outs[name]))
     for name, lab in outs.items():
         sizes = [len(list(g)) for _, g in itertools.groupby(lab)]
         if len(sizes) >= 2 and max(sizes) >= 3:
